@@ -1,5 +1,6 @@
 import AmrK.Point
 import AmrK.PointCase1
+import AmrK.PointFull
 /-! # C19 — point queries at interior cell centres return the stored cell value -/
 namespace C19
 open Point
@@ -25,6 +26,47 @@ theorem outer_miss_below (g dx : Rat) (lo i hi' : Int) (hdx : 0 < dx) (hdis : hi
     ¬ (centre g dx i ≤ pHi g dx hi' + dx / 2) := Point.outer_miss_below g dx lo i hi' hdx hdis h1
 theorem outer_miss_above (g dx : Rat) (hi i lo' : Int) (hdx : 0 < dx) (hdis : hi < lo') (h1 : i + 1 ≤ hi) :
     ¬ (pLo g dx lo' - dx / 2 ≤ centre g dx i) := Point.outer_miss_above g dx hi i lo' hdx hdis h1
+
+/-- **the whole query (full strength on the model)**: at the centre of a cell `c` of box `B = boxes[b]`
+    of level `L`, at least one cell away from `B`'s faces, with the other boxes of the level separated
+    from `B` along some axis and no box of a finer level (cells `r ≥ 2` times smaller) touching the
+    cell - i.e. `L` is the finest level covering the point - `Point.query` takes the single-box branch
+    for `(L, b)` and asks the interpolation for the local index `c - lo(B)`: the stored cell.  Any
+    number of levels and boxes, any placement `g` of the domain, any positive cell sizes per axis. -/
+theorem query_interior_centre (g : R3) (levels : List ILevel) (L b : Nat) (lv : ILevel) (B : I3 × I3) (c : I3)
+    (hL : levels[L]? = some lv) (hb : lv.boxes[b]? = some B)
+    (hd : 0 < lv.d.1 ∧ 0 < lv.d.2.1 ∧ 0 < lv.d.2.2)
+    (hin : (B.1.1 + 1 ≤ c.1 ∧ c.1 + 1 ≤ B.2.1) ∧ (B.1.2.1 + 1 ≤ c.2.1 ∧ c.2.1 + 1 ≤ B.2.2.1) ∧
+      (B.1.2.2 + 1 ≤ c.2.2 ∧ c.2.2 + 1 ≤ B.2.2.2))
+    (hsame : ∀ i B', lv.boxes[i]? = some B' → i ≠ b → Disj B B')
+    (hfiner : ∀ l lv', L < l → levels[l]? = some lv' → ∃ r : Nat, 2 ≤ r ∧
+      lv'.d = (lv.d.1 / r, lv.d.2.1 / r, lv.d.2.2 / r) ∧ ∀ B' ∈ lv'.boxes, Away r c B') :
+    query [g.1, g.2.1, g.2.2] (levels.map (ILevel.toP g)) (centre3 g lv.d c) =
+      .case1 L b [((c.1 - B.1.1 : Int) : Rat), ((c.2.1 - B.1.2.1 : Int) : Rat), ((c.2.2 - B.1.2.2 : Int) : Rat)] :=
+  Point.query_interior_centre g levels L b lv B c hL hb hd hin hsame hfiner
+
+/-- the decision part alone: all three match lists of level `L` equal `[b]` and nothing matches on a
+    finer level ⇒ single-box case for `(L, b)` -/
+theorem single_box_case (g : List Rat) (levels : List PLevel) (p : List Rat) (L b : Nat) (hL : L < levels.length)
+    (hE : matchList (fun _ => 0) (levels.getD L ⟨[], [], []⟩) p = [b])
+    (hI : matchList (fun d => d / 2) (levels.getD L ⟨[], [], []⟩) p = [b])
+    (hO : matchList (fun d => -(d / 2)) (levels.getD L ⟨[], [], []⟩) p = [b])
+    (hfE : ∀ l, L < l → l < levels.length → matchList (fun _ => 0) (levels.getD l ⟨[], [], []⟩) p = [])
+    (hfI : ∀ l, L < l → l < levels.length → matchList (fun d => d / 2) (levels.getD l ⟨[], [], []⟩) p = [])
+    (hfO : ∀ l, L < l → l < levels.length → matchList (fun d => -(d / 2)) (levels.getD l ⟨[], [], []⟩) p = []) :
+    query g levels p = .case1 L b
+      (List.zipWith (fun i (l : Int) => i - (l : Rat))
+        (List.zipWith (fun (gd : Rat × Rat) x => pointIdxR gd.1 gd.2 x) (List.zip g (levels.getD L ⟨[], [], []⟩).dx) p)
+        ((levels.getD L ⟨[], [], []⟩).idxLo.getD b [])) :=
+  query_case1_of_matches g levels p L b hL hE hI hO hfE hfI hfO
+
+/-- non-vacuity of `query_interior_centre`: two levels, two coarse boxes, a fine box over part of the
+    second one; the centre of cell (1,1,2) of the first coarse box (origin (1,-2,1/4)) -/
+example :
+    query [1, -2, 1/4]
+      ([⟨(1/2, 1/4, 1/8), [((0,0,0),(3,3,3)), ((4,0,0),(7,3,3))]⟩, ⟨(1/4, 1/8, 1/16), [((8,0,0),(11,3,3))]⟩].map
+        (ILevel.toP (1, -2, 1/4)))
+      (centre3 (1, -2, 1/4) (1/2, 1/4, 1/8) (1, 1, 2)) = .case1 0 0 [1, 1, 2] := by decide +kernel
 
 /-- the pinned conversion is wrong for every non-zero origin (checked record of the repaired defect) -/
 theorem pinned_wrong (g dx : Rat) (i : Int) (hdx : dx ≠ 0) (hg : g ≠ 0) : pointIdxP dx (g + ((i : Rat) + 1/2) * dx) ≠ i :=
